@@ -7,6 +7,8 @@ from .mirutil import *
 from .mirsym import Poly, Term, P, path_feasible
 from . import lowering, procmodel, userdocs, opmodel
 
+from . import u32ref, execmodel
+
 LEVEL = "other"
 PROC_VARIANTS = {"ExecLocal", "ExecImported", "CallLocal", "CallMastRoot", "CallImported", "SysCall", "DynExec", "DynCall", "ProcRefLocal", "ProcRefImported"}
 E = lambda i: Poly.var("e%d" % i)
@@ -684,10 +686,269 @@ def r7_exp_immediates(ctx, F):
                           "exp.%d (%s immediate): lowering %s %s; the instruction reference says the result is a^b for every immediate" % (b, kind, [o[0] for o in oks[0]["ops"]][:3] + ["..."] + ["%d x Expacc" % sum(1 for o in oks[0]["ops"] if o[0] == "Expacc")], what))
 
 
+# ---- R9: numerical semantics of the u32 instructions ------------------------------------------------------------------------
+U32_SKIP = {"u32assert": "failure behaviour decided by C05-R4", "u32assert2": "failure behaviour decided by C05-R4", "u32assertw": "failure behaviour decided by C05-R4",
+            "u32clz": "decided exactly by C09-R5", "u32ctz": "decided exactly by C09-R5", "u32clo": "decided exactly by C09-R5", "u32cto": "decided exactly by C09-R5",
+            "u32popcnt": "the population count has no polynomial normal form here (not decided)"}
+SHIFT_FORMS = ("u32shl", "u32shr", "u32rotl", "u32rotr")
+
+
+def u32_domain(notes):
+    """name -> inclusive upper bound, and names that must be non-zero, from the 'Undefined if' / 'Fails if' clauses"""
+    ub, nz = {}, set()
+    for m in re.finditer(r"max\(([a-z, ]+)\)\s*\\ge\s*2\^\{32\}", notes):
+        for n in re.split(r"[, ]+", m.group(1).strip()):
+            if n:
+                ub[n] = 2 ** 32 - 1
+    for m in re.finditer(r"\$([a-z])\s*\\ge\s*2\^\{32\}\$", notes):
+        ub[m.group(1)] = 2 ** 32 - 1
+    for m in re.finditer(r"\$([a-z])\s*>\s*(\d+)\$", notes):
+        ub[m.group(1)] = int(m.group(2))
+    for m in re.finditer(r"Fails if \$([a-z])\s*=\s*0\$", notes):
+        nz.add(m.group(1))
+    return ub, nz
+
+
+def fix_condition(N, z, truth):
+    """record that the 0/1 polynomial z has the given truth value; returns False when contradictory"""
+    z = N.resubst(z)
+    cv = z.const_value()
+    if cv is not None:
+        return bool(cv) == truth
+    vs = sorted(z.vars())
+    if len(vs) == 1 and z.degree() == 1:
+        c1 = mirsym_signed(z.coeff_of(vs[0]).const_value())
+        c0 = mirsym_signed(z.without(vs[0]).const_value() or 0)
+        # z = c0 + c1 * atom with atom binary
+        if N.ub.get(vs[0], 2) <= 1 and c1 in (1, -1):
+            want = (int(truth) - c0) * c1
+            if want not in (0, 1):
+                return False
+            N.fixed[vs[0]] = want
+            return True
+    raise u32ref.NormError("condition %r = %s is outside the recognised forms" % (z, truth))
+
+
+def mirsym_signed(c):
+    if c is None:
+        return None
+    return c if c <= P // 2 else c - P
+
+
+def apply_guards(N, guards):
+    """process the branch conditions of a composed path; False = infeasible on the operand domain"""
+    for cond, val, loc in guards:
+        if not isinstance(cond, Term):
+            raise u32ref.NormError("guard %r" % (cond,))
+        if cond.op == "u32pair":
+            return False if val == 0 else True
+        truth = (val == ("not", [0])) if isinstance(val, tuple) else None
+        if cond.op in ("eq", "ne") and len(cond.args) == 2 and all(isinstance(x, Poly) for x in cond.args):
+            t = (val == ("not", [0])) if isinstance(val, tuple) else bool(val)
+            if cond.op == "ne":
+                t = not t
+            d = N.poly(cond.args[0]) - N.poly(cond.args[1])
+            if not fix_condition(N, N.iszero(d), t):
+                return False
+            continue
+        # integer switch: value k, or ('not', [k...])
+        v = N.resubst(N.val(cond))
+        cv = v.const_value()
+        if cv is not None:
+            okk = (cv not in val[1]) if isinstance(val, tuple) else (cv == int(val))
+            if not okk:
+                return False
+            continue
+        if isinstance(val, tuple) and val[1] == [0]:
+            lo, hi = N.bounds(v)
+            if hi == 0:
+                return False
+            if not fix_condition(N, N.iszero(v), False):
+                return False
+            continue
+        if not isinstance(val, tuple) and int(val) == 0:
+            if not fix_condition(N, N.iszero(v), True):
+                return False
+            continue
+        if cond.op in ("<=", "<", ">", ">=") and isinstance(cond.args[1], int):
+            lo, hi = N.bounds(N.val(cond.args[0]))
+            b = cond.args[1]
+            dec = {"<=": (hi <= b, lo > b), "<": (hi < b, lo >= b), ">=": (lo >= b, hi < b), ">": (lo > b, hi <= b)}[cond.op]
+            tv = bool(val) if not isinstance(val, tuple) else True
+            if dec[0]:
+                if not tv:
+                    return False
+                continue
+            if dec[1]:
+                if tv:
+                    return False
+                continue
+        raise u32ref.NormError("guard %r = %r is outside the recognised forms" % (cond, val))
+    return True
+
+
+def r9_u32_semantics(ctx, C):
+    from . import rules_c09
+    F = C.F
+    adt = F.adt(r"^miden_assembly::ast::nodes::Instruction$")
+    idx = userdocs.variant_index(adt["variants"])
+    vdefs = {v["name"]: v for v in adt["variants"]}
+    decided = 0
+    undecided = {}
+    for row in userdocs.rows():
+        if not row.file.endswith("u32_operations.md") or not row.inp or row.inp[0] is None or not row.out or row.out[0] is None:
+            continue
+        base0 = userdocs.form_key(row.forms[0])[0]
+        doc_name = row.forms[0].replace("`", "").split(".")[0].strip()
+        if doc_name in U32_SKIP:
+            undecided[doc_name] = U32_SKIP[doc_name]
+            continue
+        in_names = [n for n, _ in slots(row.inp[0]) if n != "..."]
+        out_names = [n for n, _ in slots(row.out[0]) if n != "..."]
+        dom_ub, dom_nz = u32_domain(row.notes)
+        for form in row.forms:
+            base, imm = userdocs.form_key(form)
+            vname = idx.get(base + "imm") if imm else idx.get(base)
+            if vname is None:
+                ctx.violation("u32-variant-missing|%s" % form, "%s:%d" % (row.file, row.line), "no Instruction variant for the documented form %s" % form)
+                continue
+            loc = "%s:%d" % (row.file, row.line)
+            # instantiations: shift-like immediates concretely (0..31), everything else symbolically
+            insts = []
+            if imm and doc_name in SHIFT_FORMS:
+                for b in range(0, 32):
+                    L = lowering.lower_variant(F, vdefs[vname], payload=[b])
+                    insts.append((b, L))
+            else:
+                insts.append((None, C.L[vname]))
+            for bimm, L in insts:
+                key = vname if bimm is None else "%s=%d" % (vname, bimm)
+                ctx.inst(key=key, nontrivial=True)
+                lps = [lp for lp in L.paths if lp["outcome"] == "ok" and path_feasible(lp["guards"])]
+                if not lps:
+                    ctx.violation("u32-no-lowering|%s" % key, loc, "no successful lowering path")
+                    continue
+                verdict_ok, n_ok_paths = True, 0
+                for lp in lps:
+                    conc = {}
+                    for c, v, l in lp["guards"]:
+                        if isinstance(c, Term) and not c.args and isinstance(v, int) and not isinstance(v, bool):
+                            conc[c.op] = v
+                    try:
+                        rs = procmodel.run_sequence(F, lp["ops"], max_paths=4000, release=True)
+                    except Exception as e:
+                        ctx.violation("UNANALYSABLE|u32|%s" % key, loc, str(e)[:300])
+                        verdict_ok = None
+                        break
+                    for r in rs:
+                        if r["outcome"][0] in ("unanalysable",):
+                            ctx.violation("UNANALYSABLE|u32|%s" % key, loc, str(r["outcome"][1])[:300])
+                            verdict_ok = None
+                            break
+                        # operand symbols: the immediate (if any) is the first documented input
+                        names = list(in_names)
+                        env, vb = {}, {"imm_u32": 2 ** 32 - 1, "imm_u8": 255}
+                        conc_r = dict(conc)
+                        cell = 0
+                        shift = None
+                        for i, nme in enumerate(names):
+                            if imm and i == 0:
+                                if bimm is not None:
+                                    env[nme] = Poly.const(bimm)
+                                    shift = bimm
+                                else:
+                                    iv = "imm_u32" if "imm_u32" in repr(lp["ops"]) or "imm_u32" in repr(lp["guards"]) else "imm_u8"
+                                    env[nme] = Poly.const(conc[iv]) if iv in conc else Poly.var(iv)
+                                    if nme in dom_ub:
+                                        vb[iv] = min(vb[iv], dom_ub[nme])
+                                continue
+                            env[nme] = Poly.var("e%d" % cell)
+                            wm = re.match(r"^([A-Z])(\d)$", nme)
+                            if wm:
+                                env["%s_%s" % (wm.group(1).lower(), wm.group(2))] = env[nme]
+                            if nme in dom_ub:
+                                vb["e%d" % cell] = dom_ub[nme]
+                            cell += 1
+                        # symbolic shift amount: the documented domain is finite (0..31); the values this path admits are found by
+                        # evaluating its conditions
+                        if doc_name in SHIFT_FORMS and not imm:
+                            hs = [h for h in range(0, dom_ub.get(names[0], 31) + 1) if all(execmodel.guard_holds(c, v, {"e0": h}) is not False for c, v, l in r["guards"])]
+                            if len(hs) != 1:
+                                if len(hs) > 1 and r["outcome"] == ("ok",):
+                                    ctx.violation("UNANALYSABLE|u32|%s" % key, loc, "a successful path does not determine the shift amount (%s)" % hs[:4])
+                                    verdict_ok = None
+                                continue        # no shift amount of the documented domain takes this path
+                            conc_r["e0"] = hs[0]
+                            env[names[0]] = Poly.const(hs[0])
+                            shift = hs[0]
+                        N = u32ref.CNorm(vb, procmodel.FELT_TERMS, conc_r)
+                        N.bitw = {}
+                        try:
+                            for e in r["effects"]:
+                                if e[0] in ("u32and", "u32xor") and len(e) > 3:
+                                    x, y = N.poly(e[1]), N.poly(e[2])
+                                    N.bitw[sorted(e[3].vars())[0]] = N.band(x, y) if e[0] == "u32and" else x + y - N.band(x, y) * Poly.const(2)
+                            hint_only = [(c, v, l) for c, v, l in r["guards"] if not (doc_name in SHIFT_FORMS and not imm and execmodel.guard_holds(c, v, {"e0": conc_r.get("e0", 0)}) is not None)]
+                            feasible = apply_guards(N, hint_only)
+                            if not feasible:
+                                continue
+                            if r["outcome"][0] == "err":
+                                # a failure inside the operand domain must be the documented one
+                                documented = (r["outcome"][2] == "DivideByZero" and dom_nz) or (r["outcome"][2] == "NotU32Value" and "Fails if" in row.notes)
+                                if r["outcome"][2] == "DivideByZero" and dom_nz:
+                                    # the divisor is zero on this path: fine
+                                    pass
+                                ctx.oblig(bool(documented))
+                                if not documented:
+                                    verdict_ok = False
+                                    ctx.violation("u32-undocumented-failure|%s" % key, loc, "%s fails with %s for operands inside the documented domain (conditions %s)" % (key, r["outcome"][2], [(str(g[0])[:60], g[1]) for g in r["guards"]][:4]))
+                                continue
+                            if r["outcome"][0] == "panic":
+                                ctx.oblig(False)
+                                verdict_ok = False
+                                ctx.violation("u32-panic|%s" % key, loc, "%s panics inside the documented operand domain: %s" % (key, r["outcome"][1][:160]))
+                                continue
+                            # non-zero divisors
+                            for nme in dom_nz:
+                                pass
+                            refs, und = u32ref.reference_outputs(row.notes, N, env)
+                            refs.update(u32ref.textual_reference(row.notes, N, env, shift))
+                            n_ok_paths += 1
+                            for i, nme in enumerate(out_names):
+                                if nme in in_names and nme not in refs:
+                                    refs[nme] = env[nme]       # an input that stays (u32test: [b, a, ...])
+                                if nme not in refs:
+                                    ctx.violation("UNANALYSABLE|u32|%s|%s" % (key, nme), loc, "no reference definition could be read for output %s of %s (%s)" % (nme, doc_name, "; ".join(und)[:200]))
+                                    verdict_ok = None
+                                    continue
+                                got = N.resubst(N.poly(r["stack"][i]))
+                                want = N.resubst(refs[nme])
+                                ok = N.equal(got, want)
+                                ctx.oblig(ok)
+                                if not ok:
+                                    verdict_ok = False
+                                    ctx.violation("u32-semantics|%s|%s" % (vname if bimm is None else "%s=%d" % (vname, bimm), nme), loc,
+                                                  "%s%s: output %s of the composed lowering %s is %s; the reference (%s) is %s%s"
+                                                  % (doc_name, "" if shift is None else " with shift %d" % shift, nme, [o[0] for o in lp["ops"]][:12], got, row.file.rsplit("/", 1)[-1], want,
+                                                     "" if not N.fixed else " on the path where %s" % N.fixed))
+                        except u32ref.NormError as e:
+                            ctx.violation("UNANALYSABLE|u32|%s" % key, loc, "%s: %s" % (key, str(e)[:300]))
+                            verdict_ok = None
+                    if verdict_ok is None:
+                        break
+                if verdict_ok and not n_ok_paths:
+                    ctx.violation("u32-no-successful-path|%s" % key, loc, "%s has no successful composed path inside the documented operand domain" % key)
+                if verdict_ok:
+                    decided += 1
+    ctx.extra["u32_forms_decided"] = decided
+    ctx.extra["u32_not_decided_here"] = undecided
+    ctx.floor("u32-forms-decided", decided, 50)
+
+
 def run(ctx, F):
     ctx.trusted += ["rustc MIR via mirfacts", "mirsym; lowering extractor (vlib/lowering.py); operation model (vlib/procmodel.py)",
                     "docs/src/user_docs/assembly tables as oracle (parsed at run time); family formulas and FAILING/RANGES tables transcribed from the same docs"]
-    ctx.assumptions += ["numerical results of u32/ext2/hash instructions are not decided (their outputs are fresh values in the model)",
+    ctx.assumptions += ["numerical results of the u32 instructions are decided by C05-R9 (all forms except u32popcnt; the bit counts by C09-R5); results of hash / Merkle instructions are fresh values in the model and not decided",
                         "immediate parsing (decimal/hex text) is not covered", "lists and counted immediates are analysed for a representative symbolic length"]
     C = Composer(F)
     ctx.run_rule("C05-R0", "the lowering of every Instruction variant is extractable on all syntactic paths", r0_lowering_coverage, C)
@@ -698,4 +959,5 @@ def run(ctx, F):
     ctx.run_rule("C05-R5", "parameter ranges validated by the assembler equal the documented ranges and have a rejecting path", r5_param_ranges, C)
     ctx.run_rule("C05-R7", "exp.b for boundary immediates (powers of two and neighbours): lowering composed with the handlers yields exactly base^b and cannot fail", r7_exp_immediates, F)
     ctx.run_rule("C05-R8", "compiler-inserted arithmetic checks in operation handlers cannot fire inside the documented operand domains (interval analysis with path guards)", r8_handler_arithmetic, F)
+    ctx.run_rule("C05-R9", "u32 instructions: on every composed path inside the documented operand domain each output equals the reference function of u32_operations.md (canonical integer normal form: floor/mod/quotient/borrow/AND atoms), failures are the documented ones", r9_u32_semantics, C)
     ctx.run_rule("C05-R6", "minimum stack depth: shift_left pops/decrements only when depth > 16; depth writers confined", r6_min_depth, F)
